@@ -122,6 +122,14 @@ SCRIPT_SRCS = [
     ("tensor_t_loop", "def f(x: FLOAT[3], k: INT64) -> FLOAT[3]:\n    t = x\n    for i in range(k):\n        t = t * 0.5 + 1.0\n    return t\n"),
     ("half_scale", "def f(x: FLOAT16[3], scale: FLOAT16[3]) -> FLOAT16[3]:\n    return x * scale + 1.0\n"),
     ("nested_fn", "def g(a: FLOAT[3], scale: FLOAT[3]) -> FLOAT[3]:\n    return a * scale\n\n@script(default_opset=op)\ndef f(x: FLOAT[3]) -> FLOAT[3]:\n    k = 4.0\n    return g(x, x) * k\n"),
+] + [
+    # the same custom domain at different versions, as the domain of an operator and as the domain of the function itself
+    # (process-wide Opset objects); the leading dummy function only absorbs the decorator of the common header
+    (f"custom_domain_v{v}_{kind}",
+     "def _unused(x: FLOAT[1]) -> FLOAT[1]:\n    return x\n\nfrom onnxscript.values import Opset\n"
+     + (f"CUSTOM = Opset('vp.custom', {v})\n\n@script(default_opset=op)\ndef f(x: FLOAT[3]) -> FLOAT[3]:\n    return CUSTOM.Foo(x) + 1.0\n" if kind == "op" else
+        f"@script(Opset('vp.custom', {v}), default_opset=op)\ndef f(x: FLOAT[3]) -> FLOAT[3]:\n    return x * 2.0\n"))
+    for v in (1, 2, 3) for kind in ("op", "fn")
 ]
 _SCRIPT_HEADER = ("from onnxscript import script, FLOAT, DOUBLE, FLOAT16, INT64, BOOL\nfrom onnxscript import opset18 as op\n\n"
                   "@script(default_opset=op)\n")
